@@ -94,3 +94,9 @@ package clickhouse_transpiler
 //@   flag checks=-index,-assert
 //@   at sql_select.Ge lower-date-covers-window-start: isDateCol(arg0) ==> fmtDay <= fdiv(ctx.From.UnixNano(), 86400000000000)
 //@   at sql_select.Le upper-date-covers-window-end: isDateCol(arg0) ==> fmtDay >= fdiv(ctx.To.UnixNano(), 86400000000000)
+
+// `{a} || {b}`: the union of the selectors is cut to the limit by the planner above
+// this one, which keeps the first rows: they must be the most recent traces.
+//@ func (ComplexOrPlanner).Process [C11]
+//@   flag checks=-index,-assert
+//@   at sql_select.NewOrderBy most-recent-first: arg1 == sql.ORDER_BY_DIRECTION_DESC
